@@ -614,6 +614,85 @@ pub fn holder(args: &[String]) -> i32 {
     }
 }
 
+/// child: `vh c16-fsize <path> <variant> <depth> <seed> <n_ops> <extra_bytes>`: like c16-child, but after the first
+/// acknowledged flush the process limits the size any file may grow to (RLIMIT_FSIZE = current size of the largest
+/// database file + extra_bytes, SIGXFSZ ignored): from then on sled's writes really fail (EFBIG). Prints one line
+/// per operation: "OP <k> ok|err|panic" and "ACK <k>" after every flush that returned Ok.
+pub fn fsize_child(args: &[String]) -> i32 {
+    let path = &args[2];
+    let variant: usize = args[3].parse().unwrap();
+    let depth: usize = args[4].parse().unwrap();
+    let seed: u64 = args[5].parse().unwrap();
+    let n: usize = args[6].parse().unwrap();
+    let extra: u64 = args[7].parse().unwrap();
+    install_panic_hook();
+    let ops = crash_history(seed, depth, n);
+    let mut r = match open(depth, path, variant) {
+        Ok(r) => r,
+        Err(_) => return 3,
+    };
+    let out = std::io::stdout();
+    let mut limited = false;
+    for (k, op) in ops.iter().enumerate() {
+        let res = apply(&mut r, depth, op);
+        let tag = match &res {
+            Ok(Ok(())) => "ok",
+            Ok(Err(_)) => "err",
+            Err(_) => "panic",
+        };
+        {
+            let mut o = out.lock();
+            let _ = writeln!(o, "OP {} {}", k + 1, tag);
+            if matches!(op, POp::Flush) && tag == "ok" {
+                let _ = writeln!(o, "ACK {}", k + 1);
+            }
+            let _ = o.flush();
+        }
+        if matches!(op, POp::Flush) && !limited {
+            // largest file under the database directory
+            let mut largest = 0u64;
+            if let Ok(rd) = std::fs::read_dir(path) {
+                for e in rd.flatten() {
+                    if let Ok(md) = e.metadata() {
+                        largest = largest.max(md.len());
+                    }
+                }
+            }
+            unsafe {
+                libc::signal(libc::SIGXFSZ, libc::SIG_IGN);
+                let lim = libc::rlimit { rlim_cur: largest + extra, rlim_max: largest + extra };
+                libc::setrlimit(libc::RLIMIT_FSIZE, &lim);
+            }
+            limited = true;
+            let mut o = out.lock();
+            let _ = writeln!(o, "LIMIT {}", largest + extra);
+            let _ = o.flush();
+        }
+    }
+    // bulk writes large enough to outgrow sled's preallocated segment: these must hit the file size limit
+    let bulk: usize = std::env::var("C16_BULK").ok().and_then(|s| s.parse().ok()).unwrap_or(0);
+    let cap = 1usize << depth;
+    for j in 0..bulk {
+        let nleaves = 3000.min(cap);
+        let start = (j * nleaves) % (cap - nleaves + 1);
+        let leaves: Vec<Fr> = (0..nleaves).map(|i| Fr::from((7_000_000 + j * 10_000 + i) as u64)).collect();
+        let r1 = apply(&mut r, depth, &POp::Range(start, leaves));
+        let r2 = apply(&mut r, depth, &POp::Flush);
+        let t = |x: &Result<Result<(), String>, Panicked>| match x {
+            Ok(Ok(())) => "ok",
+            Ok(Err(_)) => "err",
+            Err(_) => "panic",
+        };
+        let mut o = out.lock();
+        let _ = writeln!(o, "BULK {} {} {} flush {}", j, start, t(&r1), t(&r2));
+        let _ = o.flush();
+    }
+    let mut o = out.lock();
+    let _ = writeln!(o, "END");
+    let _ = o.flush();
+    0
+}
+
 fn crash_points(rep: &mut Rep, seed: u64, n_kills: usize) {
     let me = match std::env::var("VH_SELF").or_else(|_| std::env::current_exe().map(|p| p.to_string_lossy().to_string())) {
         Ok(m) => m,
@@ -738,6 +817,125 @@ fn crash_points(rep: &mut Rep, seed: u64, n_kills: usize) {
     }
 }
 
+/// (E) real I/O failures: a writer child lowers RLIMIT_FSIZE after its first acknowledged flush, so sled's writes
+/// fail with EFBIG from then on. Whatever the child reported as successful *and* covered by a successful flush must
+/// be readable after reopening without the limit; no operation may panic; the child must not die.
+fn os_level_faults(rep: &mut Rep, seed: u64, n: usize) {
+    let me = match std::env::var("VH_SELF").or_else(|_| std::env::current_exe().map(|p| p.to_string_lossy().to_string())) {
+        Ok(m) => m,
+        Err(_) => return,
+    };
+    for k in 0..n {
+        let depth = 20usize;
+        let variant = [4usize, 0, 2][k % 3];
+        let extra = [0u64, 200_000, 1_500_000][k % 3];
+        let hseed = seed * 77 + k as u64;
+        let n_ops = 24;
+        let bulk = 8usize;
+        let base = fresh_dir(&format!("fsize{k}"));
+        let path = format!("{base}/db");
+        let out = std::process::Command::new(&me)
+            .args(["c16-fsize", &path, &variant.to_string(), &depth.to_string(), &hseed.to_string(), &n_ops.to_string(), &extra.to_string()])
+            .env("C16_BULK", bulk.to_string())
+            .output();
+        let out = match out {
+            Ok(o) => o,
+            Err(e) => {
+                rep.inconclusive(format!("spawn: {e}"));
+                continue;
+            }
+        };
+        let text = String::from_utf8_lossy(&out.stdout).to_string();
+        rep.ev();
+        rep.stratum(format!("os-fault|variant{variant}|extra={extra}"));
+        if !out.status.success() || !text.contains("END") {
+            rep.violation("os-fault:writer-process-died", json!({"status": format!("{:?}", out.status), "stdout_tail": text.chars().rev().take(300).collect::<String>().chars().rev().collect::<String>()}));
+            let _ = std::fs::remove_dir_all(&base);
+            continue;
+        }
+        // replay what the child reported
+        let ops = crash_history(hseed, depth, n_ops);
+        let mut m = Model::new(depth, poseidon_h, Fr::from(0u64));
+        let mut acked = m.clone(); // model at the last flush that returned Ok
+        let mut later: Vec<Model> = vec![]; // states after operations reported ok since then
+        let mut failed_ops = 0u64;
+        let mut panics = 0u64;
+        for line in text.lines() {
+            let f: Vec<&str> = line.split_whitespace().collect();
+            match f.as_slice() {
+                ["OP", k1, tag] => {
+                    let idx: usize = k1.parse::<usize>().unwrap_or(1) - 1;
+                    if *tag == "panic" {
+                        panics += 1;
+                    }
+                    if *tag == "ok" {
+                        if let Some(op) = ops.get(idx) {
+                            apply_model(&mut m, op);
+                            if matches!(op, POp::Flush) {
+                                acked = m.clone();
+                                later.clear();
+                            } else {
+                                later.push(m.clone());
+                            }
+                        }
+                    } else {
+                        failed_ops += 1;
+                    }
+                }
+                ["BULK", j, start, rtag, "flush", ftag] => {
+                    let j: usize = j.parse().unwrap_or(0);
+                    let start: usize = start.parse().unwrap_or(0);
+                    if *rtag == "panic" || *ftag == "panic" {
+                        panics += 1;
+                    }
+                    if *rtag == "ok" {
+                        let nleaves = 3000usize;
+                        let leaves: Vec<Fr> = (0..nleaves).map(|i| Fr::from((7_000_000 + j * 10_000 + i) as u64)).collect();
+                        m.write_range(start, &leaves);
+                        if *ftag == "ok" {
+                            acked = m.clone();
+                            later.clear();
+                        } else {
+                            later.push(m.clone());
+                        }
+                    } else {
+                        failed_ops += 1;
+                    }
+                }
+                _ => {}
+            }
+        }
+        rep.countn("os_fault_operations_reported_failed", failed_ops);
+        if panics > 0 {
+            rep.violation("os-fault:operation-panicked", json!({"panics": panics, "stdout_tail": text.lines().rev().take(6).collect::<Vec<_>>()}));
+        }
+        // reopen without the limit
+        rep.ev();
+        match open(depth, &path, variant) {
+            Ok(mut r) => {
+                let pos = watch(&acked, &[]);
+                match observe(&mut r, &pos) {
+                    Ok(o) => {
+                        let mut states = vec![acked.clone()];
+                        states.extend(later.iter().cloned());
+                        let lost: Vec<usize> = o.leaves.iter().filter(|(p, v)| !states.iter().any(|s| Some(s.get(*p)) == *v)).map(|x| x.0).take(5).collect();
+                        if !lost.is_empty() {
+                            rep.violation("os-fault:acknowledged-update-lost", json!({"positions": lost, "variant": variant, "extra": extra}));
+                        }
+                        if o.count < acked.mark.min(states.iter().map(|s| s.mark).min().unwrap()) {
+                            rep.violation("os-fault:leaf-count-went-backwards", json!({"reopened": o.count, "acknowledged": acked.mark}));
+                        }
+                        rep.count("os_fault_recoveries_checked");
+                    }
+                    Err(p) => rep.violation(format!("os-fault:observer-panic:{}", p.file()), json!({"panic": p.msg})),
+                }
+            }
+            Err(e) => rep.violation("os-fault:reopen-failed", json!({"error": e, "variant": variant, "extra": extra})),
+        }
+        let _ = std::fs::remove_dir_all(&base);
+    }
+}
+
 fn hostile_reopen(rep: &mut Rep, seed: u64, n: usize) {
     let me = match std::env::var("VH_SELF").or_else(|_| std::env::current_exe().map(|p| p.to_string_lossy().to_string())) {
         Ok(m) => m,
@@ -808,7 +1006,7 @@ fn hostile_reopen(rep: &mut Rep, seed: u64, n: usize) {
 }
 
 pub fn run(rep: &mut Rep) {
-    rep.rule = "(A) generated histories over set/delete/append/range/batch/metadata/flush (and reset/init) through RLN on persistent trees, 6 storage configurations x 4 path styles x depths {3,4,5,8,20}: flush+drop+reopen at 4 points per history must equal the model, which the reopened tree keeps following; (B) every storage operation (put, put_batch, flush) of short histories fails once: the API call must return Err, earlier acknowledged leaves/count/metadata must be readable after disarm+flush+reopen; (C) SIGKILL of a writer process 0..120 ms after an acknowledged flush; (D) reopen while another process holds the storage lock for 10..500 ms. distinct_nontrivial = distinct (leg, op kind / config / depth / offset of the failing storage op in its call / delay) keys; fault positions that fired are counted".into();
+    rep.rule = "(A) generated histories over set/delete/append/range/batch/metadata/flush (and reset/init) through RLN on persistent trees, 6 storage configurations x 4 path styles x depths {3,4,5,8,20}: flush+drop+reopen at 4 points per history must equal the model, which the reopened tree keeps following; (B) every storage operation (put, put_batch, flush) of short histories fails once: the API call must return Err, earlier acknowledged leaves/count/metadata must be readable after disarm+flush+reopen; (C) SIGKILL of a writer process 0..120 ms after an acknowledged flush; (D) reopen while another process holds the storage lock for 10..500 ms; (E) a writer process whose file-size limit is lowered after its first acknowledged flush so that sled's writes really fail (EFBIG): nothing may panic, and what was reported successful and flushed must be readable after reopen. distinct_nontrivial = distinct (leg, op kind / config / depth / offset of the failing storage op in its call / delay) keys; fault positions that fired are counted".into();
     rep.assumptions = vec![
         "the fault hook returns the adapter's normal error value at the entry of SledDB::put / put_batch / close (same path as a failing sled call)".into(),
         "the effect of a failed or in-flight operation is indeterminate and excluded; everything acknowledged before it is checked".into(),
@@ -820,5 +1018,6 @@ pub fn run(rep: &mut Rep) {
     fault_enumeration(rep, seed, if thorough { 60 } else { 5 }, if thorough { 400 } else { 90 });
     crash_points(rep, seed, if thorough { 150 } else { 9 });
     hostile_reopen(rep, seed, if thorough { 60 } else { 5 });
+    os_level_faults(rep, seed, if thorough { 12 } else { 2 });
     rep.sample(json!({"fault_enumeration": "history replayed once per storage operation k with FAIL_AFTER = k; the API call in which the fault fired must return Err", "hook_counters": {"ops_seen": hooks::OPS_SEEN.load(Ordering::SeqCst), "faults_fired": hooks::FAULTS_FIRED.load(Ordering::SeqCst), "open_retries": hooks::OPEN_RETRIES.load(Ordering::SeqCst)}}));
 }
